@@ -287,7 +287,7 @@ Proof.
   eapply post_bind with (Q := inside buf).
   { destruct (c_will_flag _); [|cbn; lia].
     eapply post_bind with (Q := inside buf).
-    { destruct (pk_version _ =? 5); [|cbn; lia].
+    { unfold will_props_if_v5. destruct (pk_version _ =? 5); [|cbn; lia].
       kstep. pstep ltac:(apply props_decode_post). intros [nw wpw] Hnw. cbn in *. lia. }
     intros [pk1 o1] Ho1. cbn in Ho1. kstep. kstep. cbn. lia. }
   intros [pk2 o2] Ho2. cbn in Ho2.
